@@ -22,15 +22,15 @@ open RbThm.ProcLen
 namespace SimIf
 
 /-- a `Jump tgt` after the statement: a normal end arrives at `tgt` -/
-theorem post_then_jump {code : Code} {sc : Scope} {below : List CtxState} {fd sd n off tgt : Nat} {p : Pos} {σ : Vm}
-    {r : St × Outcome} (h : StmtPost code sc below fd sd n off σ r)
-    (hj : code[off + n]? = some (CInstr.jump tgt, p)) : StmtPost code sc below fd sd 0 tgt σ r := by
+theorem post_then_jump {W : World} {sc : Scope} {below : List CtxState} {fd sd n off tgt : Nat} {p : Pos} {σ : Vm}
+    {r : St × Outcome} (h : StmtPost W sc below fd sd n off σ r)
+    (hj : W.code[off + n]? = some (CInstr.jump tgt, p)) : StmtPost W sc below fd sd 0 tgt σ r := by
   obtain ⟨s', o⟩ := r
   cases o with
   | normal =>
     obtain ⟨τ, st, hp, hrel, hss⟩ := h
-    have hj' : code[τ.pc]? = some (CInstr.jump tgt, p) := by rw [hp]; exact hj
-    have s1 : Vm.step code τ = .next { τ with pc := tgt } := by simp only [Vm.step, hj']
+    have hj' : W.code[τ.pc]? = some (CInstr.jump tgt, p) := by rw [hp]; exact hj
+    have s1 : Vm.step W.code τ = .next { τ with pc := tgt } := by simp only [Vm.step, hj']
     exact ⟨{ τ with pc := tgt }, st.trans (Steps.one s1), rfl, hrel.setPc tgt,
       hss.trans ⟨rfl, rfl, rfl, rfl, rfl, rfl, id⟩⟩
   | exited => exact h
@@ -41,15 +41,15 @@ theorem post_then_jump {code : Code} {sc : Scope} {below : List CtxState} {fd sd
   | illFormed => exact h
 
 /-- a label after the statement: a normal end steps over it -/
-theorem post_then_label {code : Code} {sc : Scope} {below : List CtxState} {fd sd n off : Nat} {name : String}
-    {p : Pos} {σ : Vm} {r : St × Outcome} (h : StmtPost code sc below fd sd n off σ r)
-    (hl : code[off + n]? = some (CInstr.label name, p)) : StmtPost code sc below fd sd (n + 1) off σ r := by
+theorem post_then_label {W : World} {sc : Scope} {below : List CtxState} {fd sd n off : Nat} {name : String}
+    {p : Pos} {σ : Vm} {r : St × Outcome} (h : StmtPost W sc below fd sd n off σ r)
+    (hl : W.code[off + n]? = some (CInstr.label name, p)) : StmtPost W sc below fd sd (n + 1) off σ r := by
   obtain ⟨s', o⟩ := r
   cases o with
   | normal =>
     obtain ⟨τ, st, hp, hrel, hss⟩ := h
-    have hl' : code[τ.pc]? = some (CInstr.label name, p) := by rw [hp]; exact hl
-    have s1 : Vm.step code τ = .next (Vm.advance τ) := by simp only [Vm.step, hl']
+    have hl' : W.code[τ.pc]? = some (CInstr.label name, p) := by rw [hp]; exact hl
+    have s1 : Vm.step W.code τ = .next (Vm.advance τ) := by simp only [Vm.step, hl']
     exact ⟨Vm.advance τ, st.trans (Steps.one s1), by simp [Vm.advance, hp]; omega, hrel.advance,
       hss.trans ⟨rfl, rfl, rfl, rfl, rfl, rfl, id⟩⟩
   | exited => exact h
@@ -67,11 +67,11 @@ theorem ifs_correct (W : World) (fuel f : Nat) (ih : IHle W fuel) (hf : f ≤ fu
     (below : List CtxState) (s : St) (σ : Vm)
     (hc : CodeAt W.code off (compileExpr W.lay off c ++ [(CInstr.jumpIfFalse next, p)] ++
       compileStmt W.lay sfx fd sd (off + sizeExpr c + 1) body ++ [(CInstr.jump endOff, p)]))
-    (hpc : σ.pc = off) (hr : Rel sc [] below s σ) (hwc : EWf W.sg sc.slots c) (hnc : c.ty ≠ .str)
+    (hpc : σ.pc = off) (hr : Rel W sc [] below s σ) (hwc : EWf W.sg sc.slots c) (hnc : c.ty ≠ .str)
     (hwb : Wf W.sg sc body) (ha : ActInv sc fd sd σ)
-    (hels : ∀ (s1 : St) (τ : Vm), τ.pc = next → Rel sc [] below s1 τ → ActInv sc fd sd τ →
-      StmtPost W.code sc below fd sd 0 endOff τ (Proc.Ref.exec W.P f els s1)) :
-    StmtPost W.code sc below fd sd 0 endOff σ (Proc.Ref.exec W.P (f + 1) (.ifs c (desugar body) els p) s) := by
+    (hels : ∀ (s1 : St) (τ : Vm), τ.pc = next → Rel W sc [] below s1 τ → ActInv sc fd sd τ →
+      StmtPost W sc below fd sd 0 endOff τ (Proc.Ref.exec W.P f els s1)) :
+    StmtPost W sc below fd sd 0 endOff σ (Proc.Ref.exec W.P (f + 1) (.ifs c (desugar body) els p) s) := by
   have hcond := cond_correct' W f (ih.mono hf) sc c next p off [] below s σ hc.append_left.append_left hpc hr hwc hnc
   simp only [Proc.Ref.exec]
   generalize Proc.Ref.evalCond W.P f c s = r at hcond ⊢
@@ -100,12 +100,12 @@ theorem ifs_correct (W : World) (fuel f : Nat) (ih : IHle W fuel) (hf : f ≤ fu
 end, arrives at `endOff`; `helse` says what happens once the chain is exhausted and control is at `elseOff` -/
 theorem elifs_correct (W : World) (fuel : Nat) (ih : IHle W fuel) (sc : Scope) (sfx : String) (fd sd : Nat) (p : Pos)
     (endOff elseOff : Nat) (els : SStmt) (below : List CtxState)
-    (helse : ∀ f, f ≤ fuel → ∀ (s : St) (σ : Vm), σ.pc = elseOff → Rel sc [] below s σ → ActInv sc fd sd σ →
-      StmtPost W.code sc below fd sd 0 endOff σ (Proc.Ref.exec W.P f (desugar els) s)) :
+    (helse : ∀ f, f ≤ fuel → ∀ (s : St) (σ : Vm), σ.pc = elseOff → Rel W sc [] below s σ → ActInv sc fd sd σ →
+      StmtPost W sc below fd sd 0 endOff σ (Proc.Ref.exec W.P f (desugar els) s)) :
     ∀ (elifs : ElseIfs) (f : Nat), f ≤ fuel → ∀ (off i : Nat) (s : St) (σ : Vm),
       CodeAt W.code off (compileElifs W.lay sfx fd sd p endOff off i elifs) → off + sizeElifs fd sd elifs = elseOff →
-      σ.pc = off → Rel sc [] below s σ → WfElifs W.sg sc elifs → ActInv sc fd sd σ →
-      StmtPost W.code sc below fd sd 0 endOff σ (Proc.Ref.exec W.P f (desugarElifs elifs (desugar els) p) s)
+      σ.pc = off → Rel W sc [] below s σ → WfElifs W.sg sc elifs → ActInv sc fd sd σ →
+      StmtPost W sc below fd sd 0 endOff σ (Proc.Ref.exec W.P f (desugarElifs elifs (desugar els) p) s)
   | .nil, f, hf, off, i, s, σ, hc, he, hpc, hr, hw, ha => by
     simp only [desugarElifs]
     simp only [sizeElifs] at he
@@ -155,8 +155,8 @@ theorem case_if (W : World) (fuel : Nat) (ih : IHle W fuel) (c : Proc.Expr) (thn
     (hasElse : Bool) (els : SStmt) (p : Pos)
     (sc : Scope) (sfx : String) (fd sd off : Nat) (below : List CtxState) (s : St) (σ : Vm)
     (hc : CodeAt W.code off (compileStmt W.lay sfx fd sd off (.ifBlock c thn elifs hasElse els p))) (hpc : σ.pc = off)
-    (hr : Rel sc [] below s σ) (hw : Wf W.sg sc (.ifBlock c thn elifs hasElse els p)) (ha : ActInv sc fd sd σ) :
-    StmtPost W.code sc below fd sd (sizeStmt fd sd (.ifBlock c thn elifs hasElse els p)) off σ
+    (hr : Rel W sc [] below s σ) (hw : Wf W.sg sc (.ifBlock c thn elifs hasElse els p)) (ha : ActInv sc fd sd σ) :
+    StmtPost W sc below fd sd (sizeStmt fd sd (.ifBlock c thn elifs hasElse els p)) off σ
       (Proc.Ref.exec W.P (fuel + 1) (desugar (.ifBlock c thn elifs hasElse els p)) s) := by
   simp only [Wf] at hw
   obtain ⟨hwc, hnc, hwt, hwe, hwels, hnoelse⟩ := hw
